@@ -280,7 +280,9 @@ class SpawnProcess(multiprocessing.context.SpawnProcess):
             # During the execution of this process, logging should not be configured.
             # Logging config should happen in the main process/thread.
             root = logging.getLogger()
-            root.setLevel(logging.DEBUG)
+            root.setLevel(logging.NOTSET)
+            # Not ``DEBUG``: that would drop records of custom levels below ``DEBUG`` here,
+            # although the level settings in the main process might accept them.
             qh = logging.handlers.QueueHandler(logger_queue)
             root.addHandler(qh)
             logging.captureWarnings(True)
